@@ -36,6 +36,7 @@ REASONS = {
  'C08-m9': "`unique` redefined in defs.jq (drops null): jq-level definition",
  'C09-m8': "object `*` overwrites instead of merging when the right sub-object is empty: a guard on a value",
  'C07-m9': "a signed-NaN probe in front of the Infinity probes: correct first-party code; the effect comes from hifijson's `strip_prefix` consuming input on a failed probe in streaming lexers (third-party semantics)",
+ 'C19-m8': "`--run-tests` harness reuses a caller-owned output buffer emptied only on the success path: state handed down through a `&mut` parameter, not shared state in the sense of S19.x",
  'C05-m8': "a swapped test lets an unparsable text into `Num::Dec`: the invariant of the decimal text is not computed",
 }
 rows = []
